@@ -192,6 +192,10 @@ func (e *c03exec) Run(task *exec.Task) {
 	e.log = append(e.log, fmt.Sprintf("end %d %s", id, outcome))
 	e.mu.Unlock()
 	switch outcome {
+	case "s":
+		// a slow success: other evaluations come and go while the task runs
+		time.Sleep(60 * time.Millisecond)
+		task.Set(exec.TaskOk)
 	case "o":
 		task.Set(exec.TaskOk)
 	case "l":
